@@ -31,45 +31,40 @@ theorem cachedParse_eq (s : Str) : Gen.cached_parse_nodeid s = cachedParse s := 
   · simp only [hp, if_false, Bool.false_eq_true]
     rcases h2 : split1 '=' s with ⟨t, rv⟩
     cases rv with
-    | none => simp [pySplit1, pyLen, h2]
+    | none => simp [pySplit1, pyLen, pyIndex, pyUnpack2, bindE, h2]
     | some v =>
-      cases ht : IdType.ofStr t <;> simp [pySplit1, pyLen, pyIndex, bindE, IdType.ofStrE, pyStr, h2, ht]
+      cases ht : IdType.ofStr t <;> simp [pySplit1, pyLen, pyIndex, pyUnpack2, bindE, IdType.ofStrE, pyStr, h2, ht]
 
 theorem parseNodeId_some_eq (s : Str) (m : List (Int × Int)) (al : Option (List (Str × NodeId))) :
     Gen.parse_nodeid s (some m) al = parseNodeId s m al := by
   unfold Gen.parse_nodeid parseNodeId
-  rw [cachedParse_eq]
+  simp only [cachedParse_eq]
   cases al with
   | none =>
-    simp only [pyIsSome, pyDictHas, pyTruthy, Option.isSome, Bool.false_and, Bool.false_eq_true, if_false, Option.bind]
-    cases cachedParse s with
-    | error e => cases m <;> simp [bindE]
+    cases hc : cachedParse s with
+    | error e => cases m <;> simp [bindE, pyIsSome, pyDictHas, pyTruthy, pyDictGet]
     | ok r =>
       obtain ⟨ns, ty, v⟩ := r
       cases m with
-      | nil => simp [bindE]; cases mkNodeId ns ty v <;> rfl
+      | nil => cases hk : mkNodeId ns ty v <;> simp [bindE, pyIsSome, pyDictHas, pyTruthy, pyDictGet, hk]
       | cons p ps =>
-        simp only [List.isEmpty_cons, Bool.not_false, if_true, bindE, pyDictGet, Bool.false_eq_true, if_false]
-        cases lookup ns (p :: ps) with
-        | none => rfl
-        | some g => simp only []; cases mkNodeId g ty v <;> rfl
+        cases hl : lookup ns (p :: ps) with
+        | none => simp [bindE, pyIsSome, pyDictHas, pyTruthy, pyDictGet, hl]
+        | some g => cases hk : mkNodeId g ty v <;> simp [bindE, pyIsSome, pyDictHas, pyTruthy, pyDictGet, hl, hk]
   | some l =>
-    simp only [pyIsSome, pyDictHas, pyTruthy, Option.isSome, Bool.true_and, Option.bind]
-    cases hl : lookup s l with
-    | some n => simp [bindE, pyDictGet, hl]
+    cases hl0 : lookup s l with
+    | some n => simp [bindE, pyIsSome, pyDictHas, pyTruthy, pyDictGet, hl0]
     | none =>
-      simp only [Option.isSome, Bool.false_eq_true, if_false]
-      cases cachedParse s with
-      | error e => cases m <;> simp [bindE]
+      cases hc : cachedParse s with
+      | error e => cases m <;> simp [bindE, pyIsSome, pyDictHas, pyTruthy, pyDictGet, hl0]
       | ok r =>
         obtain ⟨ns, ty, v⟩ := r
         cases m with
-        | nil => simp [bindE]; cases mkNodeId ns ty v <;> rfl
+        | nil => cases hk : mkNodeId ns ty v <;> simp [bindE, pyIsSome, pyDictHas, pyTruthy, pyDictGet, hl0, hk]
         | cons p ps =>
-          simp only [List.isEmpty_cons, Bool.not_false, if_true, bindE, pyDictGet, Bool.false_eq_true, if_false]
-          cases lookup ns (p :: ps) with
-          | none => rfl
-          | some g => simp only []; cases mkNodeId g ty v <;> rfl
+          cases hl : lookup ns (p :: ps) with
+          | none => simp [bindE, pyIsSome, pyDictHas, pyTruthy, pyDictGet, hl0, hl]
+          | some g => cases hk : mkNodeId g ty v <;> simp [bindE, pyIsSome, pyDictHas, pyTruthy, pyDictGet, hl0, hl, hk]
 
 theorem print_eq (n : NodeId) : Gen.nodeid_str n = .ok n.print := by
   unfold Gen.nodeid_str NodeId.print
@@ -78,26 +73,23 @@ theorem print_eq (n : NodeId) : Gen.nodeid_str n = .ok n.print := by
 theorem parseNodeId_none_eq (s : Str) (al : Option (List (Str × NodeId))) :
     Gen.parse_nodeid s none al = parseNodeId s [] al := by
   unfold Gen.parse_nodeid parseNodeId
-  rw [cachedParse_eq]
+  simp only [cachedParse_eq]
   cases al with
   | none =>
-    simp only [pyIsSome, pyDictHas, pyTruthy, Option.isSome, Bool.false_and, Bool.false_eq_true, if_false, Option.bind]
-    cases cachedParse s with
-    | error e => simp [bindE]
+    cases hc : cachedParse s with
+    | error e => simp [bindE, pyIsSome, pyDictHas, pyTruthy, pyDictGet]
     | ok r =>
       obtain ⟨ns, ty, v⟩ := r
-      simp [bindE]; cases mkNodeId ns ty v <;> rfl
+      cases hk : mkNodeId ns ty v <;> simp [bindE, pyIsSome, pyDictHas, pyTruthy, pyDictGet, hk]
   | some l =>
-    simp only [pyIsSome, pyDictHas, pyTruthy, Option.isSome, Bool.true_and, Option.bind]
-    cases hl : lookup s l with
-    | some n => simp [bindE, pyDictGet, hl]
+    cases hl0 : lookup s l with
+    | some n => simp [bindE, pyIsSome, pyDictHas, pyTruthy, pyDictGet, hl0]
     | none =>
-      simp only [Bool.false_eq_true, if_false]
-      cases cachedParse s with
-      | error e => simp [bindE]
+      cases hc : cachedParse s with
+      | error e => simp [bindE, pyIsSome, pyDictHas, pyTruthy, pyDictGet, hl0]
       | ok r =>
         obtain ⟨ns, ty, v⟩ := r
-        simp [bindE]; cases mkNodeId ns ty v <;> rfl
+        cases hk : mkNodeId ns ty v <;> simp [bindE, pyIsSome, pyDictHas, pyTruthy, pyDictGet, hl0, hk]
 
 /-! ### the C09 theorems, restated for the definitions generated from the source -/
 
